@@ -76,6 +76,21 @@ async fn run_world(wi: u64, mut rng: Rng) -> anyhow::Result<Summary> {
     let mut keys: Vec<[u8; 32]> = vec![];
     for _ in 0..3 { let b = rng.bytes(32); let mut k = [0u8; 32]; k.copy_from_slice(&b); keys.push(k); }
     keys.push(dht_key_of(&nodes[rng.below(n as u64) as usize].tid));
+    // the local store path must refuse oversized values too (and keep what it accepts), whatever the node knows
+    {
+        let probe_key = [0xA5u8; 32];
+        for (len, must_accept) in [(512usize, true), (513, false), (600, false), (0, true)] {
+            let who = rng.below(n as u64) as usize;
+            let val = vec![(len % 251) as u8; len];
+            let r = nodes[who].manager.store_local(probe_key, val.clone()).await;
+            let held = nodes[who].manager.get_local(&probe_key).await.ok().flatten();
+            sum.count("store_local_probes");
+            if r.is_ok() != must_accept || (must_accept && held.as_deref() != Some(&val[..])) || (!must_accept && held.as_ref().map(|h| h.len() > 512).unwrap_or(false)) {
+                sum.violation(900000 + wi, "store_local accepts / refuses a value against the 512-byte limit, or does not keep what it accepted", &[],
+                    json!({"len": len, "returned_ok": r.is_ok(), "held_len": held.map(|h| h.len())}));
+            }
+        }
+    }
     let mut silent = vec![false; n];
     let sizes = [0usize, 1, 37, 511, 512, 513, 600];
     let nops = rng.range(6, 14);
